@@ -97,3 +97,13 @@ def _mk_mismatch(kind):
 for _kind in ("full", "identity", "identity-diag"):
     REG.ob(f"{CLS[_kind]}.set_y/R!=N/refusal", sorts=["R", "N", "Dy"] + (["Dx"] if _kind == "full" else []),
            funcs=[f"conditional.{CLS[_kind]}.set_y"])(_mk_mismatch(_kind))
+
+
+for _unit in ("Dy", "Dx"):
+    for _paired in (False, True):
+        REG.ob(f"ConditionalGaussianPDF.set_y/{'R=N' if _paired else 'R=1'}/{_unit}=1", sorts=["N", "Nx", "Dx", "Dy"], unit_sorts=[_unit],
+               funcs=[f.format(cls="ConditionalGaussianPDF") for f in FUNCS])(_mk("full", _paired))
+
+
+from . import condctor as _cc  # noqa: E402
+REG.include(_cc.REG, prefix="ctor")
